@@ -936,9 +936,22 @@ pub fn check_axis(a: &AxisIn, checked: &mut [u64; 5]) -> Vec<Verdict> {
     // a fixed track may be raised by at most THRESHOLD per iteration of distribute_space_up_to_limits; the
     // iterations of one call are bounded by the growable tracks + 1, the calls by 1 (maximise) + 4 per spanning item
     let known_b_bound = THRESHOLD as f64 * ((growable + 1) * (1 + 4 * spanning)) as f64 * 1.0001;
-    let mut dev_known = |what: String, got: f32, want: f32, out: &mut Vec<Verdict>, clause: &'static str| {
+    // class `intrinsic-beyond-limits-leak` (step 11.5): the track / gutter lies inside the span of an item spanning >= 2
+    // tracks whose span contains a track with an intrinsic min sizing function (auto | min-content | max-content, or a
+    // percentage under an indefinite size): only then can "distribute beyond limits" run with `filter = |_| true`
+    let intrinsic_min = |k: usize| {
+        let m = all[k].0.min.0;
+        !collapsed(k) && (m == 5 || m == 6 || m == 7 || (m == 1 && a.inner.is_none()))
+    };
+    // tracks lo..=hi (0-based) all inside one such item's span (a gutter between tracks i-1 and i: lo = i-1, hi = i)
+    let covered = |lo: usize, hi: usize| {
+        a.spans.iter().any(|(s, e)| e - s >= 2 && s - 1 <= lo && hi + 2 <= *e && (s - 1..e - 1).any(|k| intrinsic_min(k)))
+    };
+    let mut dev_known = |what: String, cov: bool, got: f32, want: f32, out: &mut Vec<Verdict>, clause: &'static str| {
         let d = got as f64 - want as f64;
-        if growable > 0 && d > 0.0 && d <= known_b_bound {
+        if growable > 0 && d > 0.0 && d <= known_b_bound && cov {
+            out.push(Verdict::Known("intrinsic-beyond-limits-leak", format!("{}: {} is {} instead of {} (+{:.6}; inside the span of an item crossing an intrinsic-min track, {} growable tracks)", a.name, what, got, want, d, growable)));
+        } else if growable > 0 && d > 0.0 && d <= known_b_bound {
             out.push(Verdict::Known("threshold-overshoot", format!("{}: {} is {} instead of {} (+{:.6}, {} growable tracks)", a.name, what, got, want, d, growable)));
         } else {
             out.push(Verdict::Fail(clause, format!("{}: {} is {} instead of {}", a.name, what, got, want)));
@@ -952,7 +965,7 @@ pub fn check_axis(a: &AxisIn, checked: &mut [u64; 5]) -> Vec<Verdict> {
         if let Some(l) = all[k].0.fixed_px() {
             checked[1] += 1;
             if info.sizes[k].to_bits() != l.to_bits() && !(info.sizes[k] == l) {
-                dev_known(format!("fixed track {}", k), info.sizes[k], l, &mut out, "fixed");
+                dev_known(format!("fixed track {}", k), covered(k, k), info.sizes[k], l, &mut out, "fixed");
             }
         }
     }
@@ -960,7 +973,7 @@ pub fn check_axis(a: &AxisIn, checked: &mut [u64; 5]) -> Vec<Verdict> {
     for (what, g) in [("first", info.gutters[0]), ("last", info.gutters[n])] {
         checked[3] += 1;
         if g != 0.0 {
-            dev_known(format!("{} outer gutter", what), g, 0.0, &mut out, "outer");
+            dev_known(format!("{} outer gutter", what), false, g, 0.0, &mut out, "outer");
         }
     }
     let gapv = match (a.gap.0, a.inner) {
@@ -977,7 +990,7 @@ pub fn check_axis(a: &AxisIn, checked: &mut [u64; 5]) -> Vec<Verdict> {
             // the content box from the Layout, which may differ in the last place
             let same = info.gutters[i] == want || (a.gap.0 == 1 && (info.gutters[i] - want).abs() <= (want.abs() + f32::from_bits(a.gap.1).abs() * a.pct_scale) * 8.0 * f32::EPSILON);
             if !same {
-                dev_known(format!("gutter {}", i), info.gutters[i], want, &mut out, "gutter");
+                dev_known(format!("gutter {}", i), covered(i - 1, i), info.gutters[i], want, &mut out, "gutter");
             }
         }
     }
